@@ -54,6 +54,11 @@ Lemma E_obj m c l name g : E (VObj m c l) name g = with_group name (encode_field
 Proof. reflexivity. Qed.
 Lemma E_other tys h name g : E (VOther tys h) name g = write_bytes name (ABytes "dill" tys h) g.
 Proof. reflexivity. Qed.
+Definition tb_attrs (d : string) (q f : Z) (sfx : string) : smap jval :=
+  [("_torch_logger", JBool true); ("class_name", JStr "SummaryWriter"); ("log_dir", JStr d);
+   ("max_queue", JInt q); ("flush_secs", JInt f); ("filename_suffix", JStr sfx)].
+Lemma E_tb d q f sfx name g : E (VTbWriter d q f sfx) name g = with_group name (set_attrs (tb_attrs d q f sfx)) g.
+Proof. reflexivity. Qed.
 
 (* ------------------------------------------------------------------ what one value contributes *)
 Definition jscalar (v : value) : jval :=
@@ -81,6 +86,7 @@ Definition subg (v : value) : node :=
   | VSet l => set_attr "_container_type" (JStr "set") (encode_seq E "list" l empty_group)
   | VDict l => encode_dict E l empty_group
   | VObj m c l => encode_fields [] [] E m c l empty_group
+  | VTbWriter d q f sfx => set_attrs (tb_attrs d q f sfx) empty_group
   | _ => empty_group
   end.
 
@@ -118,6 +124,7 @@ Proof.
   - rewrite E_dict. apply with_group_fresh. exact Hs.
   - rewrite E_obj. apply with_group_fresh. exact Hs.
   - rewrite E_other. unfold write_bytes. apply create_array_fresh; assumption.
+  - rewrite E_tb. apply with_group_fresh. exact Hs.
 Qed.
 
 (* keys a piece occupies *)
